@@ -75,7 +75,7 @@ class Machine:
     def atom(self, n):
         if n.k == "ImplicitCastExpr" and n.ck == "LValueToRValue":
             loc = self.locate(n.kids[0])
-            if loc is not None:
+            if loc is not None and loc[0] in self.vals:
                 return self.read(loc)
         if n.k == "ImplicitCastExpr" and n.ck == "AtomicToNonAtomic":
             return None
